@@ -103,7 +103,7 @@ def generate(rng, tier, focus):
             ops.append({"op": rng.choice(["len", "natoms", "box", "title", "full_iter"])})
     if not any(o["op"] == "full_iter" for o in ops) and rng.random() < 0.5:
         ops.append({"op": "full_iter"})
-    return {"text": text, "ops": ops}
+    return {"text": text, "ops": ops, "open_file": rng.random() < 0.2}
 
 
 def abbreviate(trace):
@@ -159,7 +159,12 @@ def execute(trace, ctx):
     with open(path, "w") as f:
         f.write(text)
     try:
-        sg = SystemGro(path)
+        if trace.get("open_file"):
+            fh = open(path)                     # "Gromacs file path or open file"
+            sg = SystemGro(fh)
+            ctx.probe("built_from_open_file")
+        else:
+            sg = SystemGro(path)
     except Exception as e:
         ctx.op("load", "raised")
         ctx.violate(P, "load-raised", f"SystemGro raised {type(e).__name__}: {e}")
